@@ -611,7 +611,68 @@ def r10_no_self_delete(ctx, cfg):
     ctx.floor(rule, n, 1, "savers that write and remove names built by one path helper")
 
 
+def r11_sweep_spares_current(ctx, cfg):
+    """a directory sweep that deletes generation-numbered state files never deletes the file of the CURRENT generation, whatever the other fields hold:
+    the removal lies behind the not-equal edge of an equality test of the scanned generation with the field the saver names its file with. (A window
+    test `prev..=current` is empty when a reload made prev > current - and then the sweep deletes the checkpoint that was just loaded.)"""
+    rule = "C06.R11"
+    ctx.rule(rule, "a read_dir sweep in the state modules removes a generation-numbered file only behind `scanned generation != self.<current generation field>`")
+    from .lib import bool_switches
+    n = 0
+    # the saver's counter fields, as R9 finds them: what the saver passes to the *_file_path helper next to a whole-file write
+    counters = set()
+    for b in ctx.prog.bodies.values():
+        if b.krate not in cfg["krates"] or not re.search(cfg["state_modules"], b.file or ""):
+            continue
+        for c in b.calls:
+            if re.search(r"_file_path$", c.name) and len(c.args) >= 2 and op_local(c.args[1]) is not None and c.bb in b.live_blocks():
+                writes = any((WRITE_WHOLE.search(x.name) or CREATE.search(x.name)) and x.args and c.dest and c.dest[0] in path_roots(b, x.args[0])[0] for x in b.calls)
+                if writes:
+                    sl = Slice(b, [op_local(c.args[1])], transparent=True)
+                    counters |= {f[-1] for f in sl.fields if f and not str(f[-1]).startswith("upvar:")}
+    for b in sorted(ctx.prog.bodies.values(), key=lambda x: x.id):
+        if b.krate not in cfg["krates"] or not re.search(cfg["state_modules"], b.file or ""):
+            continue
+        if not any(re.search(r"^std::fs::read_dir$", c.name) for c in b.calls):
+            continue
+        rms = [c for c in b.calls if REMOVE.search(c.name) and c.bb in b.live_blocks()]
+        gens = [c for c in b.calls if re.search(r"filename_to_generation$|_to_generation$", c.name)]
+        if not rms or not gens or not counters:
+            continue
+        ctx.saw(b)
+        for d in rms:
+            n += 1
+            guarded = False
+            for (i, j, st) in b.stmts():
+                r = st["r"]
+                if r["k"] != "Bin" or r["op"] not in ("Ne", "Eq") or len(st["p"]) != 1:
+                    continue
+                sides = []
+                for o in r["o"]:
+                    l = op_local(o)
+                    if l is None:
+                        sides.append((set(), set()))
+                        continue
+                    sl = Slice(b, [l], transparent=True)
+                    sides.append(({f[-1] for f in sl.fields if f}, {c.name for c in sl.calls}))
+                for k in (0, 1):
+                    cur = sides[k][0] & counters
+                    scanned = any(re.search(r"_to_generation$", nm) for nm in sides[1 - k][1])
+                    if not cur or not scanned:
+                        continue
+                    for (sbb, tt, ft) in bool_switches(b, st["p"][0]):
+                        ne_edge = tt if r["op"] == "Ne" else ft
+                        if not (set(b.pred[ne_edge]) - {sbb}) and b.dominates(ne_edge, d.bb):
+                            guarded = True
+            ctx.check(guarded, rule, [b.id, "sweep-spares-current"], "the removal is behind `scanned != current generation`",
+                      "%s sweeps the directory and removes generation-numbered files without an equality test of the scanned generation against the saver's own "
+                      "counter (%s) on the way: a window or ordering test is empty or wrong when a reload left the other bound above the current generation, and "
+                      "the sweep then deletes the checkpoint that is in use" % (ctx._stable(b.id), "/".join(sorted(counters))), d.loc(), sample={"sweep": b.id, "counter_fields": sorted(counters)})
+    ctx.floor(rule, n, 1, "removals in generation-file sweeps")
+
+
 def run(ctx, cfg=CFG):
+    r11_sweep_spares_current(ctx, cfg)
     r10_no_self_delete(ctx, cfg)
     r9_load_adopts_generation(ctx, cfg)
     r8_sweep_after_success(ctx, cfg)
